@@ -476,6 +476,23 @@ Proof.
   eapply kp_seq; eassumption.
 Qed.
 
+(* kp for settle_app / settle_app' (application events) *)
+Lemma settle_app_kp n ds : cid_fresh n -> kp n (fst (fst (settle_app n ds))).
+Proof.
+  intros Fr. unfold settle_app.
+  pose proof (io_iteration_kp n ds) as G2. destruct (io_iteration n ds) as [[n2 o2] ds']. cbn [fst] in *.
+  pose proof (flush_kp n2) as G3. destruct (flush n2) as [n3 o3]. cbn [fst] in *.
+  eapply kp_trans; [apply G2; exact Fr|exact G3].
+Qed.
+Lemma settle_app'_kp n ds : cid_fresh n -> kp n (fst (settle_app' n ds)).
+Proof. intros Fr. unfold settle_app'. pose proof (settle_app_kp n ds Fr) as G. destruct (settle_app n ds) as [[n1 o1] d]. exact G. Qed.
+Lemma then_settle_app_kp n n1 o1 ds :
+  cid_fresh n -> kp n n1 -> kp n (fst (let '(n2, o2) := settle_app' n1 ds in (n2, (o1 ++ o2)%list))).
+Proof.
+  intros Fr G. pose proof (settle_app'_kp n1 ds) as G2. destruct (settle_app' n1 ds) as [n2 o2]. cbn [fst] in *.
+  eapply kp_seq; eassumption.
+Qed.
+
 (* kp for wake *)
 Lemma wake_kp target fuel :
   forall n ds acc n0, cid_fresh n0 -> kp n0 n -> kp n0 (fst (wake target fuel n ds acc)).
@@ -829,7 +846,7 @@ Proof.
   match goal with |- context [send_message ?x cid ?mm] =>
     assert (K3 : kp n1 x) by (apply same_kp; reflexivity);
     pose proof (send_message_kp x cid mm) as K4; destruct (send_message x cid mm) as [n4 o4] end.
-  cbn [fst] in K4. apply then_settle_kp; [exact Fr|].
+  cbn [fst] in K4. apply then_settle_app_kp; [exact Fr|].
   eapply kp_trans; [exact K1|]. eapply kp_trans; [exact K3|exact K4].
 Qed.
 
@@ -894,7 +911,7 @@ Proof.
   - (* EAppAnswer *)
     cbn [step]. pose proof (route_answer_kp n m) as F. destruct (route_answer n m) as [[cid|] n1]; cbn [snd] in F.
     + pose proof (send_message_kp n1 cid m) as G. destruct (send_message n1 cid m) as [n2 o2].
-      apply then_settle_kp; [exact Fr|]. eapply kp_trans; [exact F|exact G].
+      apply then_settle_app_kp; [exact Fr|]. eapply kp_trans; [exact F|exact G].
     + exact F.
   - (* EAppRequest *)
     rewrite step_app_request.
@@ -1465,8 +1482,8 @@ Proof.
       pose proof (send_message_kp n1 cid1 a) as K2. pose proof (send_message_es n1 cid1 a Hq) as S.
       pose proof (send_message_out n1 cid1 a) as O. destruct (send_message n1 cid1 a) as [n2 o2]. cbn [fst snd] in *.
       assert (K02 : kp n n2) by (eapply kp_trans; eassumption).
-      pose proof (settle'_kp n2 ds (kp_fresh _ _ K02 Fr)) as K3. pose proof (NodeB.settle'_rq n2 ds) as R3.
-      destruct (settle' n2 ds) as [n3 o3]. cbn [fst snd] in *. subst o2.
+      pose proof (settle_app'_kp n2 ds (kp_fresh _ _ K02 Fr)) as K3. pose proof (NodeB.settle_app'_rq n2 ds) as R3.
+      destruct (settle_app' n2 ds) as [n3 o3]. cbn [fst snd] in *. subst o2.
       rewrite cnt_app, (cnt_rq _ _ _ R3), Nat.add_0_r. unfold cnt. cbn [List.filter].
       destruct (ansk cid k (OQueue cid1 a)) eqn:Ea; cbn [List.length]; [|discriminate].
       intros Ex _ _. injection Ex as <-. apply ansk_true in Ea. destruct Ea as (-> & _ & _).
